@@ -1130,3 +1130,83 @@ def r13_phase_follows_the_pixel(ck, P, rid='C08-R19'):
                 ck.violation(R, f.name, '%s phase at %s' % (axis, x.loc()), '%s selects the %s kernel row from a coordinate that does not vary with the pixel (it is computed before the pixel loop): the phase of the first pixel of the scanline is used for all of them, which is wrong as soon as the transform moves the %s sample coordinate along the scanline (rotation, shear)' % (f.name, axis, axis), x.loc())
     if n == 0:
         raise AnalysisBroken('%s: no phase extraction found in the readers of the separable-convolution block' % rid)
+
+
+def r14_header_fields_bounded(ck, P, rid='C18-R13'):
+    """T-GRD: the length equation of a kernel block (n_params == header + products of header fields) decides nothing about the sign of
+    the individual fields - a negative size on one axis is made up for by the other - and a field used as a shift count must lie in the
+    range of the shift.  The setter therefore bounds each header field it converts, on every path that installs the block."""
+    from .sampling import spec_succ, facts_at
+    R = ck.rule(rid, 'in the function that installs filter_params, on the paths guarded by filter == K for each kind K whose fetcher reads the block at a computed index, every header field (params[k] >> 16) is bounded below by a comparison with a non-negative constant before the block is installed, and a field used as a shift count is bounded above as well: n_params == 4 + nx * width + ny * height alone accepts {-100, 100, 0, 0} with four values, and the fetchers then read their coefficients in front of the block', floor=8)
+    kinds = param_reading_filter_kinds(P)
+    setters = [f for f in P.functions() if any(x.op == 'store' and f.last_field(f.path(x.a[1])) == 'image_common.filter_params' and x.a[0][0] != 'n' for x in f.insts()) and f.exported]
+    if len(setters) != 1 or not kinds:
+        raise AnalysisBroken('%s: expected one exported function installing image_common.filter_params and at least one kernel filter kind' % rid)
+    f = setters[0]; ck.saw(f)
+    inst = [x for x in f.insts() if x.op == 'store' and f.last_field(f.path(x.a[1])) == 'image_common.filter_params' and x.a[0][0] != 'n'][0]
+    fpar = ppar = None
+    for x in f.insts():
+        if x.op == 'store' and f.last_field(f.path(x.a[1])) == 'image_common.filter' and x.a[0][0] == 'a':
+            fpar = x.a[0][1]
+    for i, (nm, ty) in enumerate(f.params):
+        if ty == 'i32*':
+            ppar = i
+    if fpar is None or ppar is None:
+        raise AnalysisBroken('%s: %s has no filter / params parameters' % (rid, f.name))
+    inv = {v: k for k, v in P.enum('pixman_filter_t').items()}
+    SW = {'slt': 'sgt', 'sgt': 'slt', 'sle': 'sge', 'sge': 'sle', 'eq': 'eq', 'ne': 'ne'}
+    n = 0
+    for K, gs in sorted(kinds.items()):
+        succ = spec_succ(f, {fpar: K})
+        seen = set(); work = [0]
+        while work:
+            b = work.pop()
+            if b in seen:
+                continue
+            seen.add(b); work.extend(succ[b])
+        if inst.bb.id not in seen:
+            continue
+        facts_ = facts_at(f, succ, inst.bb.id) or set()
+        # header fields converted under this kind
+        fields = []
+        for x in f.insts():
+            if x.op != 'ashr' or x.bb.id not in seen or not (x.a[1][0] == 'c' and int(x.a[1][1]) == 16):
+                continue
+            y = f.v(f.strip_casts(x.a[0]))
+            if y is None or y.op != 'load':
+                continue
+            pa = f.path(y.a[0])
+            if pa[0] != ('arg', ppar) or any(not (isinstance(st, str) and st.startswith('+')) for st in pa[1]):
+                continue
+            k = int(pa[1][0][1:]) if pa[1] else 0
+            fields.append((k, x))
+        for k, V in sorted(fields, key=lambda e: e[0]):
+            lo = hi = None
+            for cid, truth in facts_:
+                c = f.by_id[cid]
+                p = c.pred if truth else f.INV.get(c.pred, c.pred)
+                a0, a1 = c.a
+                if list(f.strip_casts(a1)) == ['v', V.i] and a0[0] == 'c':
+                    a0, a1 = a1, a0; p = SW.get(p, p)
+                if list(f.strip_casts(a0)) != ['v', V.i] or a1[0] != 'c':
+                    continue
+                cv = int(a1[1])
+                if p == 'sge' and cv >= 0 or p == 'sgt' and cv >= -1:
+                    lo = cv
+                if p in ('sle', 'slt'):
+                    hi = cv
+            shift_count = any(u.op in ('shl', 'lshr', 'ashr') and list(f.strip_casts(u.a[1])) == ['v', V.i] for u in f.insts() if u.op in ('shl', 'lshr', 'ashr'))
+            n += 1
+            where = '%s: filter == %s, header field %d' % (f.name, inv.get(K, K), k)
+            if lo is None:
+                ck.violation(R, f.name, 'header field %d of %s' % (k, inv.get(K, K)), '%s installs the block of %s without a lower bound on header field %d (params[%d] >> 16, %s): the length equation is satisfied by a negative value on one axis and a larger one on the other, and the fetchers (%s) index the block with it' % (f.name, inv.get(K, K), k, k, V.loc(), ', '.join(sorted(gs))), V.loc())
+            else:
+                ck.ok(R, where, 'bounded below')
+            if shift_count:
+                n += 1
+                if hi is None:
+                    ck.violation(R, f.name, 'shift count from header field %d of %s' % (k, inv.get(K, K)), '%s uses header field %d of %s as a shift count without an upper bound (%s): 1 << bits and the fetchers\' 16 - bits are undefined beyond the width of the type, and a huge phase count with a zero size satisfies the length equation' % (f.name, k, inv.get(K, K), V.loc()), V.loc())
+                else:
+                    ck.ok(R, where + ' (shift count)', 'bounded above by %d' % hi)
+    if n == 0:
+        raise AnalysisBroken('%s: no header field converted in %s' % (rid, f.name))
